@@ -148,7 +148,7 @@ _p('C01', ['K', 'E6', 'J2', 'A10', 'A1', 'A11', 'SLN', 'IDX1'],
    explanation="Class-provenance typing of every return of the operator/slicing methods per concrete class; sibling guard "
                "comparison; call-graph reachability to field reads.")
 
-_p('C06', ['C', 'POSW', 'B1', 'POST', 'RB', 'NOMOVE', 'E7', 'D2', 'J1', 'J2', 'OPT', 'CHOKE', 'SCALE', 'STALE'],
+_p('C06', ['C', 'POSW', 'B1', 'POST', 'RB', 'NOMOVE', 'E7', 'D2', 'J1', 'J2', 'OPT', 'CHOKE', 'SCALE', 'STALE', 'A11'],
    decided=["0 <= pos <= len in its structural part: _pos is definitely assigned on every escaping stream object; every "
             "_pos write is 0, the length, a validated/restored/found position, pos+len after a validated pos, or a "
             "bounded/checked increment; every effect that can change a BitStream's length is covered by stream-level "
